@@ -182,3 +182,10 @@ Theorem c10_async_loop_is_source :
     step_async L llen PS recog bump lineno s = Pins.step_async_src L llen PS recog bump lineno s.
 Proof. intros. apply Pins.pin_step. Qed.
 Print Assumptions c10_async_loop_is_source.
+
+(* non-vacuity: the async run the correspondence uses (run_async = drive_async + callback trace) on 3 chunks, and the
+   loop assembled from parse_async's extracted conditions takes the same first step as the model *)
+Example c10_nonvacuous_async_run :
+  let '(o, t) := run_async ex_lines 0 [20; 1; 41] in
+  (o_kind o, o_cb o, o_files o, 0 <? tr_events t) = (0, 62, 1, true).
+Proof. vm_compute. reflexivity. Qed.
